@@ -4,7 +4,8 @@ import os, sys, json, time, subprocess, hashlib, fcntl, shutil, glob
 VERIF = os.path.dirname(os.path.dirname(os.path.abspath(__file__)))
 REPO = os.environ.get('VERIF_REPO', '/repo')
 WORK = os.path.join(VERIF, '.work')
-EVID = os.path.join(VERIF, 'evidence')
+# runs against deliberately broken trees (seedrun.sh / seedall.sh) write their evidence elsewhere so that evidence/ always describes the unchanged tree
+EVID = os.environ.get('VERIF_EVIDENCE_DIR') or os.path.join(VERIF, 'evidence')
 REPLAYS = os.path.join(VERIF, 'replays')
 NIGHTLY = os.environ.get('VERIF_NIGHTLY', 'nightly')
 HOOK_CFG = 'rbpf_verif'
